@@ -113,6 +113,7 @@ class Ctx:
         self.stats = Stats()
         self.fresh = itertools.count()
         self.notes: List[str] = []
+        self.prefs: List[Any] = []
         # union-find over symbol names -> constraint groups
         self._parent: dict = {}
         self._group: dict = {}  # root -> list of constraints
@@ -227,7 +228,22 @@ class Ctx:
             r = str(sv.check())
             if r != "sat":
                 return r, None
-            return r, sv.model()
+            if self.prefs:
+                # soft preferences (small replay inputs): all at once, else greedily
+                sv.push()
+                sv.add(*self.prefs)
+                self.stats.queries += 1
+                if str(sv.check()) == "sat":
+                    return "sat", sv.model()
+                sv.pop()
+                for pz in self.prefs:
+                    sv.push()
+                    sv.add(pz)
+                    self.stats.queries += 1
+                    if str(sv.check()) != "sat":
+                        sv.pop()
+                sv.check()
+            return "sat", sv.model()
         finally:
             dt = time.perf_counter() - t0
             self.stats.solver_s += dt
@@ -948,6 +964,10 @@ def run_path(fn: Callable[[Any], None], make_inputs: Callable[[Ctx], Any], prefi
         res.status = "inconclusive"
         res.detail = str(e)
     finally:
+        try:
+            inputs.cleanup()
+        except Exception:
+            pass
         CUR = None
     res.taken = list(c.taken)
     c.stats.paths = 1
